@@ -55,6 +55,7 @@ let run_case ~(dflt : kind) (c : case) =
     | ["kind"; k] -> kd := kind_of_string k
     | ["vsign"; _] -> ()
     | "swapobj" :: _ -> ()   (* the driver moves the tree between two objects: contents unchanged *)
+    | ["nestwalk"; _] -> ()  (* the driver's visitor walks another tree first: no effect on this one *)
     | ["cmpmode"; _] -> ()   (* magnitude of the C comparator's results: only the sign matters *)
     | _ ->
       let key n = let i = int_of_nat n in if i < Array.length !keys then !keys.(i) else BinNums.Z0 in
@@ -122,6 +123,7 @@ let run_case_links ~(dflt : kind) (c : case) =
     | ["kind"; k] -> kd := kind_of_string k
     | ["vsign"; _] -> ()
     | "swapobj" :: _ -> ()   (* the driver moves the tree between two objects: contents unchanged *)
+    | ["nestwalk"; _] -> ()  (* the driver's visitor walks another tree first: no effect on this one *)
     | ["cmpmode"; _] -> ()
     | _ ->
       let key n = let i = int_of_nat n in if i < Array.length !keys then !keys.(i) else BinNums.Z0 in
